@@ -568,6 +568,178 @@ def run(case, ctx):
         ctx.nontrivial()
 
 
+# ----------------------------------------------------------------------------- stage solo
+# Metamorphic: what ONE instance observes (values, their types, exceptions, handler calls, default computations) in a history
+# interleaved with operations on other instances of the class equals what it observes when the very same operations are
+# applied to it alone (fresh class object both times).  The attributes are the DYNAMIC kinds: Range / Enum whose bounds and
+# values are other attributes of the instance (of either numeric type), method defaults, an Instance default whose first
+# read can fail late (a `kid:value` observer on a default object without `value`).
+SOLO_READ = ["level", "lowonly", "pick", "kid", "items", "ratio"]
+BOUNDS = [0, 1, 0.5, 10, 10.0, 20.5, 4, 4.0]
+SOLO_OP = st.one_of(
+    st.tuples(st.just("bound"), st.integers(0, 2), st.sampled_from(["lo", "hi"]), st.sampled_from(BOUNDS)),
+    st.tuples(st.just("read"), st.integers(0, 2), st.sampled_from(SOLO_READ)),
+    st.tuples(st.just("read"), st.integers(0, 2), st.sampled_from(SOLO_READ)),
+    st.tuples(st.just("assign"), st.integers(0, 2), st.sampled_from(["level", "lowonly", "ratio"]), st.sampled_from([1, 2.5, 7.25, 7, 3.0, 100])),
+    st.tuples(st.just("assign"), st.integers(0, 2), st.just("pick"), st.sampled_from([1, 2, 5, 2.0])),
+    st.tuples(st.just("assign"), st.integers(0, 2), st.just("opts"), st.sampled_from([[1, 2, 3], [5, 2], [2.0, 1]])),
+    st.tuples(st.just("assign"), st.integers(0, 2), st.just("items"), st.sampled_from([[4], []])),
+    st.tuples(st.just("del"), st.integers(0, 2), st.sampled_from(["level", "lowonly", "pick", "kid", "items", "ratio"])),
+    st.tuples(st.just("bare"), st.integers(0, 2), st.booleans()),
+    st.tuples(st.just("observe_kid"), st.integers(0, 2)),
+    # the default object will lack `value` AND a `kid:value` observer is in place: the first read fails after the default exists
+    st.tuples(st.just("kid_trap"), st.integers(0, 2)), st.tuples(st.just("read"), st.integers(0, 2), st.just("kid")),
+    st.tuples(st.just("kid_value"), st.integers(0, 2), st.integers(0, 3)),
+    st.tuples(st.just("items_append"), st.integers(0, 2), st.integers(0, 3)),
+)
+
+
+def solo_strategy(tier):
+    return st.fixed_dictionaries({"ops": st.lists(SOLO_OP, min_size=2, max_size=24)})
+
+
+def _solo_cls(calls):
+    from traits.api import Range, Enum, Bool
+
+    class Bare(HasTraits):
+        other = Int
+
+    class Kid(HasTraits):
+        value = Int
+
+    class D(HasTraits):
+        lo = Any(0)
+        hi = Any(10)
+        level = Range("lo", "hi", 2.5)            # both bounds by name: the value's type follows THIS object's bounds
+        lowonly = Range(low="lo", value=3)
+        ratio = Range(0.0, "hi", 1.0)
+        opts = List([1, 2, 3])
+        pick = Enum(values="opts")
+        kid = Instance(HasTraits)
+        items = List(Int)
+        bare = Bool(False)
+
+        def _kid_default(self):
+            k = (self.__dict__["_serial"], "kid")
+            calls[k] = calls.get(k, 0) + 1
+            return Bare() if self.bare else Kid()
+
+        def _items_default(self):
+            k = (self.__dict__["_serial"], "items")
+            calls[k] = calls.get(k, 0) + 1
+            return [self.__dict__["_serial"]]
+    return D
+
+
+def _solo_play(ops, only, ctx=None):
+    """Apply `ops` (those of instance `only` if not None) to instances of a fresh class; returns per-instance logs."""
+    calls = {}
+    D = _solo_cls(calls)
+    insts = []
+    for j in range(3):
+        o = D()
+        o.__dict__["_serial"] = j
+        insts.append(o)
+    logs = {j: [] for j in range(3)}
+    stored = {}
+    lastobj = {}
+
+    def view(v):
+        if isinstance(v, HasTraits):
+            return type(v).__name__
+        if isinstance(v, list):
+            return ["%s:%r" % (type(x).__name__, x) for x in v]
+        return "%s:%r" % (type(v).__name__, v)
+    for idx, op in enumerate(ops):
+        k, j = op[0], op[1]
+        if only is not None and j != only:
+            continue
+        o, lg = insts[j], logs[j]
+        before = dict(calls)
+        if k == "del":
+            # (the deletion announces old value -> default: the new default may be computed within this very step)
+            stored[(j, op[2])] = False
+        try:
+            if k == "bound":
+                setattr(o, op[2], op[3])
+                r = "ok"
+            elif k == "read":
+                v = getattr(o, op[2])
+                if op[2] in ("kid", "items"):
+                    prev = lastobj.get((j, op[2]))
+                    if ctx is not None and prev is not None and prev is not v:
+                        ctx.fail("default/different-object-on-reread", "two reads of %s on instance #%d without an assignment or deletion "
+                                 "in between gave two objects (step %d of %r)" % (op[2], j, idx, ops))
+                    lastobj[(j, op[2])] = v
+                r = view(v)
+            elif k == "assign":
+                setattr(o, op[2], list(op[3]) if isinstance(op[3], list) else op[3])
+                lastobj.pop((j, op[2]), None)
+                stored[(j, op[2])] = True
+                r = "ok"
+            elif k == "del":
+                delattr(o, op[2])
+                lastobj.pop((j, op[2]), None)
+                stored[(j, op[2])] = False
+                r = "ok"
+            elif k == "bare":
+                o.bare = op[2]
+                r = "ok"
+            elif k == "observe_kid":
+                o.observe(lambda e, lg=lg: lg.append(("kid-value-event", e.new)), "kid:value")
+                r = "ok"
+            elif k == "kid_trap":
+                o.bare = True
+                o.observe(lambda e, lg=lg: lg.append(("kid-value-event", e.new)), "kid:value")
+                r = "ok"
+            elif k == "kid_value":
+                kid = o.__dict__.get("kid")
+                if kid is not None and "value" in kid.trait_names():
+                    kid.value = op[2]
+                r = "ok"
+            else:
+                it = o.__dict__.get("items")
+                if it is not None:
+                    it.append(op[2])
+                r = "ok"
+        except Exception as e:
+            r = "raises " + type(e).__name__
+        lg.append((idx, k, r))
+        for key, c in calls.items():
+            d = c - before.get(key, 0)
+            if not d:
+                continue
+            if ctx is not None and (d > 1 or stored.get(key)):
+                ctx.fail("default/method-ran-twice", "_%s_default ran %s on instance #%d in step %d %r (outcome %r) although the default "
+                         "had been computed (or a value assigned) and not deleted since; ops=%r"
+                         % (key[1], "%d times" % d if d > 1 else "again", key[0], idx, op, r, ops))
+            if ctx is not None and isinstance(r, str) and r.startswith("raises"):
+                ctx.label("first-read-failed-after-the-default-was-computed")
+                ctx.nontrivial()
+            stored[key] = True
+    return logs
+
+
+def solo_run(case, ctx):
+    ops = [tuple(o) for o in case["ops"]]
+    together = _solo_play(ops, None, ctx)
+    touched = sorted({o[1] for o in ops})
+    if len(touched) > 1:
+        ctx.nontrivial()
+        ctx.label("interleaved-instances:%d" % len(touched))
+    types = {type(o[3]).__name__ for o in ops if o[0] == "bound"}
+    if len(types) > 1:
+        ctx.label("int-and-float-bounds")
+    for j in touched:
+        alone = _solo_play(ops, j)[j]
+        if alone != together[j]:
+            diff = next((a, b) for a, b in zip(alone + [None], together[j] + [None]) if a != b)
+            ctx.fail("isolation/solo-differs", "instance #%d observes %r when the history is applied to it alone but %r when it is "
+                     "interleaved with operations on other instances; ops=%r" % (j, diff[0], diff[1], ops))
+
+
 def stages(tier):
     return [{"name": "hist", "kind": "hyp", "strategy": strategy, "run": run,
-             "examples": {"quick": 24000, "thorough": 300000}, "shards": 16}]
+             "examples": {"quick": 24000, "thorough": 300000}, "shards": 16},
+            {"name": "solo", "kind": "hyp", "strategy": solo_strategy, "run": solo_run,
+             "examples": {"quick": 8000, "thorough": 120000}, "shards": 16}]
